@@ -52,6 +52,11 @@ def Heap.getIndex (hp : Heap V) (r : Nat) (k : Int) : Attr V :=
 def Heap.addMethod [Inhabited V] (hp : Heap V) (k : Int) (fn : V) : Option (Heap V) :=
   (hp.ty.methods.set k fn).map fun ms => { hp with ty := { hp.ty with methods := ms } }
 
+/-- `newStructByIndex(base, data)`: a new instance, then one `SetIndex` per (field, value) pair of
+    the literal `&T{f: v, …}` -/
+def Heap.allocWith (hp : Heap V) (conv : V → V → V) (inits : List (Int × V)) : Option (Heap V × Nat) :=
+  (inits.foldlM (fun (h : Heap V) kv => h.setIndex hp.alloc.2 kv.1 conv kv.2) hp.alloc.1).map fun h => (h, hp.alloc.2)
+
 /-! ### the type object as declarations build it (STRUCT, GLOBALSTRUCT, addField, syncFields) -/
 
 /-- a struct TYPE object as the declarations build it (`structT.Order`, `structT.Fields`; a field
